@@ -434,14 +434,23 @@ def collect_histories(chk, binary, runs, tag, timeout=180, jobs=None):
     for i, rc, out, recs in results:
         origin = dict(binary=os.path.basename(binary), args=[str(a) for a in runs[i][0]],
                       env=runs[i][1] or {}, rc=rc)
+        if rc == 0:
+            recs = [r for r in recs if r.get("e") != "exit"]
+        else:
+            for r in recs:
+                if r.get("e") == "exit":       # the library called exit() on an internal error
+                    r["e"] = "crash"
+                    r["rc"] = rc
         complete, tail = split_histories(recs)
         for h in complete:
             hist.append((h, origin))
         if tail:
             hist.append((tail, origin))
         if rc not in (0,) and not tail and not complete:
-            # the harness produced nothing: machinery failure unless it is a crash of the code
-            raise ModelFailure("harness %s produced no trace (rc=%d): %s" % (binary, rc, out[-2000:]))
+            if rc in (2, 126, 127):
+                # usage error / cannot execute: the machinery is broken, not the code under test
+                raise ModelFailure("harness %s produced no trace (rc=%d): %s" % (binary, rc, out[-2000:]))
+            hist.append(([{"e": "crash", "rc": rc, "output_tail": out[-600:]}], origin))
         if rc == 124 and not any(r.get("e") in ("hang", "quiescent", "crash") for r in (tail or [])):
             hist.append(([{"e": "hang", "outer": 1}], origin))
     return hist
